@@ -230,3 +230,213 @@ Example ex_nod_major_range :
   snd (parse_log [110;111;100;32;110;32;48;54;52;52;32;48;32;48;32;99;32;52;48;57;54;32;48;10]) = Some EDevNum /\
   snd (parse_log [110;111;100;32;110;32;48;54;52;52;32;48;32;48;32;98;32;48;32;49;48;52;56;53;55;54;10]) = Some EDevNum.
 Proof. vm_compute. repeat split; reflexivity. Qed.
+
+(* ================================================================================================ *)
+(* Extension (session 3)                                                                            *)
+(* ================================================================================================ *)
+
+(* ---- (a) the specification side of replay_rebuilds / describe_rebuilds, independent of the model ----
+   FsSpec.entry_node is defined through FsModel.stored_node (the transcription of mknode), so a slip there would be on
+   both sides of the theorems above.  C16/FsSpecLit.v spells the node an entry must become out as a record literal per
+   entry kind with numeric literals for the type bits (dir / file: extra = location / slink: mode forced to
+   S_IFLNK|0777, extra = target / nod: device number / pipe, sock: nothing else), proves it equal to entry_node on
+   every mode word of the property, and restates the two theorems with the literal on the specification side. *)
+From SqfsV Require Import C16.FsSpecLit.
+
+Theorem entry_spec_literal : forall uroot p mode uid gid target devno,
+  mode_ok mode -> entry_node uroot p mode uid gid target devno = entry_lit uroot p mode uid gid target devno.
+Proof. exact entry_lit_is_entry_node. Qed.
+Print Assumptions entry_spec_literal.
+
+Theorem replay_rebuilds_lit :
+  forall def_mode def_uid def_gid uroot t,
+    wf_root t -> uniq_names t ->
+    run_calls (list fnode) (fs_add def_mode def_uid def_gid) (fs_init def_mode def_uid def_gid)
+              (root_calls uroot t) = (root_nodes_lit uroot t, None).
+Proof. exact replay_rebuilds_lit_l. Qed.
+Print Assumptions replay_rebuilds_lit.
+
+Theorem describe_rebuilds_lit :
+  forall def_mode def_uid def_gid uroot t,
+    wf_root t -> uroot_ok uroot -> uniq_names t ->
+    exists out,
+      describe uroot t = (out, true) /\
+      fstree_from_file_stream (list fnode) (fs_add def_mode def_uid def_gid) default_options
+                              (fs_init def_mode def_uid def_gid) out
+      = (root_nodes_lit uroot t, None).
+Proof. exact describe_rebuilds_lit_l. Qed.
+Print Assumptions describe_rebuilds_lit.
+
+(* the literals are the generated <sys/stat.h> values, and the literal specification of the example tree, written out *)
+Example ex_lit_constants :
+  c_S_IFMT = 61440 /\ c_S_IFDIR = 16384 /\ c_S_IFREG = 32768 /\ c_S_IFLNK = 40960 /\ c_S_IFCHR = 8192 /\
+  c_S_IFBLK = 24576 /\ c_S_IFIFO = 4096 /\ c_S_IFSOCK = 49152 /\ N.lor c_S_IFLNK 511 = 41471 /\ slash = 47.
+Proof. exact lit_constants. Qed.
+Example ex_rebuild_lit :
+  root_nodes_lit ex_uroot ex_tree =
+  [ {| f_path := []; f_mode := 16872; f_uid := 1000; f_gid := 100; f_devno := 0; f_extra := None; f_implicit := false; f_hard := false |};
+    {| f_path := [[97;32;98]]; f_mode := 33188; f_uid := 1; f_gid := 2; f_devno := 0;
+       f_extra := Some [47;117;110;32;112;97;99;107;47;97;32;98]; f_implicit := false; f_hard := false |};
+    {| f_path := [[100]]; f_mode := 16832; f_uid := 0; f_gid := 0; f_devno := 0; f_extra := None; f_implicit := false; f_hard := false |};
+    {| f_path := [[100];[120;92;32;121]]; f_mode := 41471; f_uid := 0; f_gid := 0; f_devno := 0;
+       f_extra := Some [116;32;103;34;116]; f_implicit := false; f_hard := false |};
+    {| f_path := [[100];[100;101;118]]; f_mode := 8576; f_uid := 0; f_gid := 0; f_devno := 305419896; f_extra := None;
+       f_implicit := false; f_hard := false |};
+    {| f_path := [[101;13]]; f_mode := 32768; f_uid := 0; f_gid := 4294967295; f_devno := 0;
+       f_extra := Some [47;117;110;32;112;97;99;107;47;101;13]; f_implicit := false; f_hard := false |};
+    {| f_path := [[116;9]]; f_mode := 49572; f_uid := 0; f_gid := 0; f_devno := 0; f_extra := None; f_implicit := false; f_hard := false |} ] /\
+  root_nodes_lit ex_uroot ex_tree = root_nodes ex_uroot ex_tree.
+Proof. vm_compute. split; reflexivity. Qed.
+
+(* ---- (b) from the image to the image: describe on a tree READ FROM THE TABLES, packed again (coq/ImgDescribe) ----
+   So far the round trip ended at the flat node list of C16/FsModel.v.  Here the describe side starts at the reader: the
+   tree [lt] that Img.tree_roundtrip / C01.pack_paths_roundtrip say is read back from serialized tables is presented to
+   describe as the sqfs_tree_node_t hierarchy ([describe_input]: name, inode mode, owner through the id table, symlink
+   target, device number, entries in directory order); describe's output is parsed by the pack file parser whose
+   fstree_add_generic calls now act on the fstree model of C11 (sorted children, link counts, links_unresolved:
+   [do_add]); fstree_post_process (C11) and the bridge to the serializer (ImgPost.to_img) follow.
+
+   Hypotheses (all decidable, all met by ex_repack_hyps):
+     lt_okb lt           kinds agree with the type bits, symbolic links carry 0777 (every symlink of an fstree does),
+                         owners resolve, listings strictly sorted, only directories have entries — for a tree read from
+                         representable tables this is only the 0777 condition (repack_domain)
+     wf_root (...)       C16's hypothesis on the described tree: names without NUL, newline, '/', not '.' / '..',
+                         targets without NUL / newline, 12 permission bits, 32 bit owners and device numbers
+     input_okb bs d ops  ImgPost's bounds on the fstree_add_generic calls (names <= 65536 bytes, count < 2^32, ...)
+
+   describe_repack_same_tree: describe succeeds; the parser accepts the listing and builds exactly [build_root] (one node
+   per entry, nothing implicit, no link queued); post processing succeeds; and for every file inodes / xattr indices the
+   rest of the packer attaches, the new tables read back as the SAME paths in the same order with the same type and
+   permission bits, owner, symlink target and device number.
+   NOT preserved, and why equality of the tables fails in general: (1) hard links — describe prints every name as a file
+   of its own, so a group of names sharing one inode comes back as independent inodes (ex_repack_same_tree: inode 1 twice
+   before, 1 and 8 after) and inode numbers / link counts shift; (2) time stamps — the pack file format has none, every
+   node gets the default; (3) xattrs — not printed.
+   describe_repack_fixed_point: what the cycle produces is reproduced EXACTLY by the next cycle: the reader hands describe
+   the identical hierarchy, describe prints the identical listing, the parser builds the identical fstree, and with the
+   same file inodes and xattr indices the serializer gets the identical input — the same inode, directory and id tables
+   byte for byte.  (ex_repack_same_tables: for a tree without hard links whose time stamps are the default already the
+   first cycle reproduces the tables.) *)
+From SqfsV Require C03.Common C01.Res C01.InodeModel Img.TreeModel.
+From SqfsV Require C11.StrOrder C11.FstreeModel C11.PostModel.
+From SqfsV Require Import ImgPost.Bridge ImgPost.InputOk ImgPost.PathsModel.
+From SqfsV Require Import ImgDescribe.RepackModel ImgDescribe.ReplayProofs ImgDescribe.RepackProofs
+  ImgDescribe.FixedPoint ImgDescribe.SpecOk ImgDescribe.Example.
+
+Definition meta_contract16 (compress : list N -> Common.cres) (uncompress : list N -> option (list N)) : Prop :=
+  forall b c, compress b = Common.CData c -> Common.lenN c <= Common.lenN b /\ uncompress c = Some b.
+
+(* the calls of a described tree, replayed on the C11 fstree, build [build_root] *)
+Theorem replay_builds_fstree : forall d uroot t,
+  wf_root t -> Sorted.StronglySorted StrOrder.str_lt (map dname (dchildren t)) -> Forall rwf (dchildren t) ->
+  run_calls FstreeModel.fstree (do_add d) (FstreeModel.fs_init d) (root_calls uroot t) =
+  (FstreeModel.mkFs (build_root d uroot t) [], None).
+Proof. exact replay_root. Qed.
+Print Assumptions replay_builds_fstree.
+
+(* the tree a reader finds in representable tables is in the domain as soon as symlinks carry 0777 *)
+Theorem repack_domain : forall compress uncompress, meta_contract16 compress uncompress ->
+  forall limit, limit <= 65536 ->
+  forall bs t img,
+  TreeModel.representable bs t = true -> slinks_0777 t ->
+  TreeModel.serialize_fstree compress limit t = Res.Ok img -> TreeModel.trace_fits img = true ->
+  exists lt, TreeModel.read_tree uncompress bs (TreeModel.si_itbl img) (TreeModel.si_dtbl img) (TreeModel.si_ids img)
+                                 (length t) (TreeModel.si_root img) = Some lt /\
+             lt_okb lt = true.
+Proof. exact read_back_ok. Qed.
+Print Assumptions repack_domain.
+
+Theorem describe_repack_same_tree : forall compress uncompress, meta_contract16 compress uncompress ->
+  forall limit, limit <= 65536 ->
+  forall bs d uroot lt,
+  lt_okb lt = true -> wf_root (describe_input [] lt) -> uroot_ok uroot ->
+  input_okb bs d (calls_ops d (root_calls uroot (describe_input [] lt))) = true ->
+  exists out pp2,
+    describe uroot (describe_input [] lt) = (out, true) /\
+    fstree_from_file_stream FstreeModel.fstree (do_add d) default_options (FstreeModel.fs_init d) out =
+      (FstreeModel.mkFs (build_root d uroot (describe_input [] lt)) [], None) /\
+    repack d uroot lt = Some pp2 /\
+    forall fb2 xa2 img2,
+      attached_okb bs fb2 xa2 pp2 = true ->
+      TreeModel.serialize_fstree compress limit (to_img fb2 xa2 pp2) = Res.Ok img2 ->
+      TreeModel.trace_fits img2 = true ->
+      exists lt2,
+        TreeModel.read_tree uncompress bs (TreeModel.si_itbl img2) (TreeModel.si_dtbl img2) (TreeModel.si_ids img2)
+                            (length (PostModel.pp_inodes pp2)) (TreeModel.si_root img2) = Some lt2 /\
+        map entry_view (flat_lt [] lt2) = map entry_view (flat_lt [] lt).
+Proof. exact describe_repack_same_tree_l. Qed.
+Print Assumptions describe_repack_same_tree.
+
+Theorem describe_repack_fixed_point : forall compress uncompress, meta_contract16 compress uncompress ->
+  forall limit, limit <= 65536 ->
+  forall bs d uroot lt pp2 fb2 xa2 img2,
+  lt_okb lt = true -> wf_root (describe_input [] lt) -> uroot_ok uroot ->
+  input_okb bs d (calls_ops d (root_calls uroot (describe_input [] lt))) = true ->
+  repack d uroot lt = Some pp2 ->
+  attached_okb bs fb2 xa2 pp2 = true ->
+  TreeModel.serialize_fstree compress limit (to_img fb2 xa2 pp2) = Res.Ok img2 ->
+  TreeModel.trace_fits img2 = true ->
+  exists lt2,
+    TreeModel.read_tree uncompress bs (TreeModel.si_itbl img2) (TreeModel.si_dtbl img2) (TreeModel.si_ids img2)
+                        (length (PostModel.pp_inodes pp2)) (TreeModel.si_root img2) = Some lt2 /\
+    describe_input [] lt2 = describe_input [] lt /\
+    (forall u, describe u (describe_input [] lt2) = describe u (describe_input [] lt)) /\
+    (forall d' u, repack d' u lt2 = repack d' u lt) /\
+    (forall pp3, repack d uroot lt2 = Some pp3 ->
+       TreeModel.serialize_fstree compress limit (to_img fb2 xa2 pp3) = Res.Ok img2).
+Proof. exact describe_repack_fixed_point_l. Qed.
+Print Assumptions describe_repack_fixed_point.
+
+(* ---- non-vacuity: d/{'a b', q'\ -> 'x y'}, e, p (fifo), s (socket), 't<TAB>' (chr 1:3), z = hard link to 'd/a b' ---- *)
+Example ex_describe_repack_hyps :
+  lt_okb y_lt = true /\ wf_root (describe_input [] y_lt) /\ uroot_ok y_uroot /\
+  input_okb 4096 y_dflt (calls_ops y_dflt (root_calls y_uroot (describe_input [] y_lt))) = true /\
+  match gen1 y_ops with
+  | Some (pp, _, _) => TreeModel.representable 4096 (to_img y_fb y_xa pp) = true /\ length (PostModel.pp_inodes pp) = 8%nat
+  | None => False
+  end.
+Proof. exact ex_repack_hyps. Qed.
+Example ex_describe_repack_same_tree :
+  match gen1 y_ops, regen y_fb2 y_lt with
+  | Some (pp1, img1, lt1), Some (pp2, img2, lt2) =>
+      attached_okb 4096 y_fb2 y_xa pp2 = true /\
+      map entry_view (flat_lt [] lt2) = map entry_view (flat_lt [] lt1) /\
+      map entry_view (flat_lt [] lt1) =
+        [([], 16877, Some 0, Some 0, EDir);
+         ([y_d], 16832, Some 1, Some 2, EDir);
+         ([y_d; y_ab], 33188, Some 1000, Some 100, EFile);
+         ([y_d; y_q], 41471, Some 7, Some 8, ESlink [120; 32; 121]);
+         ([y_e], 33024, Some 0, Some 0, EFile);
+         ([y_p], 4516, Some 0, Some 0, EIpc false);
+         ([y_s], 49645, Some 0, Some 4294967295, EIpc true);
+         ([y_t], 8576, Some 0, Some 0, EDev true 259);
+         ([y_z], 33188, Some 1000, Some 100, EFile)] /\
+      map snd (flat_lt [] lt1) = [8; 3; 1; 2; 4; 5; 6; 7; 1] /\
+      map snd (flat_lt [] lt2) = [9; 3; 1; 2; 4; 5; 6; 7; 8] /\
+      PostModel.pp_files pp2 = [[y_d; y_ab]; [y_e]; [y_z]] /\
+      TreeModel.si_itbl img1 <> TreeModel.si_itbl img2
+  | _, _ => False
+  end.
+Proof. exact ex_repack_same_tree. Qed.
+Example ex_describe_repack_fixed_point :
+  describe_input [] y_lt2 = describe_input [] y_lt /\
+  repack y_dflt y_uroot y_lt2 = repack y_dflt y_uroot y_lt /\
+  match regen y_fb2 y_lt, regen y_fb2 y_lt2 with
+  | Some (_, img2, _), Some (_, img3, _) => img3 = img2
+  | _, _ => False
+  end.
+Proof. exact ex_repack_fixed_point. Qed.
+Example ex_describe_repack_same_tables :
+  match gen1 y_ops_nl with
+  | Some (pp1, img1, lt1) =>
+      match regen y_fb lt1 with
+      | Some (pp2, img2, _) =>
+          to_img y_fb y_xa pp2 = to_img y_fb y_xa pp1 /\
+          TreeModel.si_itbl img2 = TreeModel.si_itbl img1 /\ TreeModel.si_dtbl img2 = TreeModel.si_dtbl img1 /\
+          TreeModel.si_ids img2 = TreeModel.si_ids img1 /\ TreeModel.si_root img2 = TreeModel.si_root img1 /\
+          Common.lenN (TreeModel.si_itbl img1) = 208 /\ Common.lenN (TreeModel.si_dtbl img1) = 89
+      | None => False
+      end
+  | None => False
+  end.
+Proof. exact ex_repack_same_tables. Qed.
